@@ -72,7 +72,12 @@ META = {
                 'compile_params, update_model, direct parameter writes, settings '
                 'arriving through an input file\'s [Fitting]/[Derive] sections '
                 'via ParameterParser.setup_optimizer, misuse faults incl. input '
-                'files naming unknown parameters) on a long-lived Optimizer+model+observation; '
+                'files naming unknown parameters; bounds changed through the '
+                'component-level modify_bounds or by changing, in place, the '
+                'very list handed to set_boundary; a second optimizer on the '
+                'same tables; the model rebuilt, also after a component and '
+                'its parameter were removed; a plug-in prior class) on a '
+                'long-lived Optimizer+model+observation; '
                 'non-trivial = at least two compilations with a settings '
                 'change in between, or at least one injected misuse fault; '
                 'distinct = distinct hash of the sequence of (reference '
@@ -85,7 +90,10 @@ META = {
                    'nonpositive_param_fitted',
                    'setting_changed_by_second_optimizer',
                    'same_vector_written_again', 'module_level_compile',
-                   'model_rebuilt'],
+                   'model_rebuilt', 'bounds_changed_on_component',
+                   'bounds_list_changed_in_place',
+                   'component_removed_and_rebuilt', 'removed_parameter_named',
+                   'plugin_prior_compiled'],
         'real': ['taurex.optimizer.Optimizer (all mutators and views)',
                  'ParameterParser.read / generate_fitting_parameters / '
                  'setup_optimizer, create_prior (prior text form)',
@@ -124,7 +132,8 @@ META = {
         'probes': ['rank_with_0_samples', 'rank_with_1_sample', 'tied_weights',
                    'zero_weights', 'fewer_than_2_processed',
                    'second_solution_same_objects', 'accumulator_history',
-                   'pooled_result_asked_again', 'tied_derived_values'],
+                   'pooled_result_asked_again', 'tied_derived_values',
+                   'condensate_profiles'],
         'real': ['Optimizer.generate_profiles / sample_parameters / '
                  'compute_derived_trace', 'SimpleForwardModel.compute_error',
                  'OnlineVariance (update, parallelVariance, combine_variance)',
@@ -158,7 +167,11 @@ META = {
             'hands them over (+1e-300, never exactly zero)',
             'where derived values tie between samples of different weight the '
             'quantile rule depends on the order of the tied samples: the '
-            'oracle is then the same code on one rank',
+            'oracle is then the same code on one rank, and the envelope of '
+            'the rule over all orders of the tied samples',
+            'condensate profiles come from a harness subclass of '
+            'TaurexChemistry that reports two condensates (no built-in '
+            'chemistry does)',
         ],
     },
     'C06': {
@@ -204,8 +217,10 @@ META = {
             'native spacings wide (binning unambiguous; reference binner agrees '
             'with FluxBinner to 6e-16 on 300 such layouts)',
             'likelihood tolerance 1e-10*|L|+1e-9; prior tolerance 1e-9',
-            'invalid atmospheres reachable here: sum of mixing ratios > 1, toy '
-            'limit, injected contribution faults; a model whose spectrum is '
+            'invalid atmospheres reachable here: sum of mixing ratios > 1, '
+            'negative Guillot irradiation temperature, toy limit, injected '
+            'contribution faults (with derived parameters mu/logg/avg_T '
+            'switched on or off); a model whose spectrum is '
             'not finite (e.g. NaN temperatures from a negative Guillot '
             'opacity in the tail of a Gaussian prior) must give a non-finite '
             'callback value',
@@ -229,7 +244,8 @@ META = {
         'probes': ['unequal_modes', 'multi_mode', 'tied_weights',
                    'real_nestle_run', 'second_fit_same_optimizer',
                    'derived_trace_with_nan',
-                   'observation_replaced_between_fits'],
+                   'observation_replaced_between_fits',
+                   'tied_sample_values', 'tied_derived_values'],
         'real': ['Optimizer.fit / generate_solution / generate_profiles / '
                  'compute_derived_trace', 'store_nestle_output, '
                  'store_nest_solutions, store_polychord_solutions, '
@@ -253,8 +269,11 @@ META = {
             'MAP: nestle = ONE stored sample of greatest weight (all '
             'coordinates from the same row); MultiNest = the MAP the sampler '
             'reported; PolyChord = only required to be one stored sample',
-            'sample values are distinct per parameter (ties in x make the '
-            'quantile rule order dependent); weights may tie freely',
+            'where sample (or derived) values tie, the quantile rule depends '
+            'on the order of the tied samples only through the weight of the '
+            'first of each tied block: the result must lie in the envelope '
+            'spanned by the two extreme orders (exact otherwise); weights may '
+            'tie freely',
             'resume/crash of the external samplers is out of scope',
         ],
     },
@@ -325,7 +344,9 @@ META = {
         'probes': ['append_phase', 'reload_run', 'solution_store_run',
                    'same_length_other_spacing', 'stored_again_refused',
                    'parameter_changed_before_write',
-                   'written_after_later_evaluations'],
+                   'written_after_later_evaluations',
+                   'another_file_loaded_first',
+                   'loaded_with_replacements_first'],
         'real': ['HDF5Output / HDF5OutputGroup', 'Output.store_dictionary, '
                  'recursively_save_dict_contents_to_output, store_thing',
                  'Binner/FluxBinner/SimpleBinner/NativeBinner '
@@ -359,7 +380,8 @@ META = {
                 'model(wngrid=sub), model_contrib(), model_full_contrib() (both '
                 'also restricted to a sub-range), a source added after '
                 'build(), the cache\'s interpolation mode changed under the '
-                'living model, '
+                'living model, the CIA pair list changed through its setter, '
+                'hazes switched off (exactly zero) and on, '
                 'store_contributions(), parameter writes (incl. abundance -> 0, '
                 'x2, invalid vectors); after every evaluating op the product '
                 'relations R1-R5 and equality with a fresh model at the same '
@@ -369,7 +391,8 @@ META = {
         'probes': ['three_or_more_components', 'evaluate_while_invalid',
                    'parts_on_sub_grid', 'source_added_after_build',
                    'interpolation_mode_changed_under_model',
-                   'correlated_k_mode'],
+                   'correlated_k_mode',
+                   'collision_pairs_changed_after_build'],
         'real': ['TransmissionModel (both path methods), SimpleForwardModel '
                  'model/model_contrib/model_full_contrib/build',
                  'AbsorptionContribution, CIAContribution, RayleighContribution, '
